@@ -107,6 +107,9 @@ func (rc *runCtx) param(k, def string) string {
 	return def
 }
 
+// properties whose statement excludes hangs: a livelock that eats the step budget counts against them
+var vHangProps = map[string]bool{"C01": true, "C02": true, "C10": true, "C11": true, "C18": true}
+
 // scenario bodies run inside the bubble, on its root goroutine.
 var vScenarios = map[string]func(rc *runCtx){}
 
@@ -184,6 +187,26 @@ func vRunJob(t *testing.T, job *vJob, tmpRoot string) *vResult {
 			if rc.w.StepCap && res.Class == "ok" {
 				res.Class = "inconclusive"
 				res.Msg = "step cap reached"
+				// ... unless the steps were burnt by one task going round and round at the same place without the
+				// clock moving (the scheduler noted it): for the properties that say "never a hang" that is one
+				if vHangProps[job.Prop] {
+					if ll := rc.w.Livelock(3000, time.Second); ll != "" {
+						res.Class, res.Kind = "violation", "hang"
+						res.Sig = job.Prop + ":hang:livelock:same-message-forever"
+						res.Msg = fmt.Sprintf("the run used up its %d scheduling steps in %v of simulated time and neither role had ended; %s", rc.w.Steps, rc.w.Now(), ll)
+					}
+					for k := range rc.w.Probes {
+						if res.Class == "violation" {
+							break
+						}
+						if strings.HasPrefix(k, "busyloop:") {
+							res.Class, res.Kind = "violation", "hang"
+							res.Sig = job.Prop + ":hang:livelock:" + strings.TrimPrefix(k, "busyloop:")
+							res.Msg = fmt.Sprintf("the run used up its %d scheduling steps with a task spinning at %s (no sleep, no blocking) and neither role had ended: a livelock; parked=%s", rc.w.Steps, strings.TrimPrefix(k, "busyloop:"), vClip(rc.w.ParkedSummary(), 300))
+							break
+						}
+					}
+				}
 			}
 		})
 	}()
